@@ -51,7 +51,7 @@ class C12(Prop):
             'hash feeds of ==-equal values compared; non-trivial = at least one field or two variants')
 
     def n(self, tier):
-        return 240 if tier == 'quick' else 4000
+        return 240 if tier == 'quick' else 16000
 
     def cases(self, tier, rng):
         out = []
